@@ -247,6 +247,9 @@ def r10c(chk, rid='R10.c'):
             expect(f'{bname}: item({i})', run('item', block, index=i), want)
         for name in ('a', 'A', 'b', 'B', 'c', 'zz'):
             expect(f'{bname}: {name!r} in block', run('__contains__', block, nameOrProperty=name), name.lower() in names)
+            # a Property object is looked up by its normalised name, whatever its literal spelling
+            probe = PropM(literalname=name.upper() + '\\', name=name.lower(), priority='', tag='probe', wellformed=True)
+            expect(f'{bname}: Property({name!r}) in block', run('__contains__', block, nameOrProperty=probe), name.lower() in names)
             for normalize in (True, False):
                 expect(f'{bname}: getProperty({name!r}, normalize={normalize})', run('getProperty', block, name=name, normalize=normalize), effective(name, normalize))
             expect(f'{bname}: getProperties({name!r})', run('getProperties', block, name=name), [effective(name)] if effective(name) else [])
